@@ -106,31 +106,7 @@ def run(chk, replay=None):
         out = C.run_child({'synthetic': [[u'ns%d' % k, u'urn:foreign:gen%d' % k]], 'touch': [u'urn:new:%d' % j for j in range(5)]})
         chk.case(('genprefix', k)); chk.count('generated_form_prefix_cases')
         C.table_oracle(chk, out['table_after'], {'synthetic': [[u'ns%d' % k, u'urn:foreign:gen%d' % k]], 'touch': 5})
-    # fixed cases: a tree with foreign namespaces (element / attribute only / both) is alive while another package is loaded or
-    # another document is created and saved; serialised afterwards (twice) it must be what a fresh interpreter writes
-    F1, F2 = u'urn:example:foreign', u'http://example.org/a?b=1&c=2'
-    T = u'urn:oasis:names:tc:opendocument:xmlns:text:1.0'
-    alive = [('E', F1, u'foo', [], [('T', u'x')]),
-             ('E', T, u'p', [(F2, u'custom', u'v')], []),
-             ('E', F1, u'foo', [(F2, u'custom', u'v')], [('E', F2, u'span', [(F1, u'lang', u'w')], [('T', u'y')])])]
-    samples0 = sorted(glob.glob(os.path.join(common.REPO, 'tests', 'examples', '*.od*')))
-    for label, extra in (('synthetic-load', {'synthetic': [[u'zz', u'urn:foreign:zz']]}),
-                         ('sample-load', {'preload': samples0[:1]}),
-                         ('two-loads', {'preload': samples0[:2], 'synthetic': [[u'zz', u'urn:foreign:zz']]}),
-                         ('touch-only', {'touch': [u'urn:new:a', u'urn:new:b']})):
-        fresh = C.run_child({'trees_before': alive, 'twice': True})
-        spec = dict(extra); spec.update({'trees_before': alive, 'twice': True})
-        after = C.run_child(spec)
-        chk.case(('alive-across', label)); chk.count('alive_across_load_cases')
-        for k, (a, b) in enumerate(zip(fresh['docs'], after['docs'])):
-            ok1, t1 = C.wellformed(C.PROLOGUE + a); ok2, t2 = C.wellformed(C.PROLOGUE + b)
-            case = {'alive': alive[k % len(alive)], 'then': extra, 'serialisation': 1 + k // len(alive)}
-            if not ok1:
-                chk.fail('not-wellformed-fresh', case, str(t1))
-            elif not ok2:
-                chk.fail('not-wellformed-after-history', case, str(t2))
-            elif X.sort_attrs(t1) != X.sort_attrs(t2):
-                chk.fail('history-dependent-infoset', case, str(X.first_diff(X.sort_attrs(t1), X.sort_attrs(t2))))
+    C.alive_across_load_check(chk)
     # history independence: same trees, fresh interpreter vs after a history
     samples = sorted(glob.glob(os.path.join(common.REPO, 'tests', 'examples', '*.od*')))
     import translate_ns
